@@ -138,3 +138,14 @@ def vt(root, nid):
         return vt_of(int((Path(root) / f"f{nid}.txt").read_text()))
     except Exception:  # noqa: BLE001
         return vt_of(0)
+
+
+def gen_end(root, t, src, deps, pattern_files, prods):
+    """End of a generator body: writes the generator's own products (function of its dependencies and
+    the files it received, in id order), then logs."""
+    root = Path(root)
+    files = sorted(pattern_files, key=_nid)
+    dv = [int(Path(d).read_text()) for d in list(deps) + files]
+    for nid, path in dict(prods).items():
+        Path(path).write_text(str(hbody(t, src, dv, int(nid))))
+    gen_log(root, t, "F")
